@@ -4,6 +4,7 @@ import common
 
 PROPS = "RotoV.Props.C15"
 MODULES = ["RotoV.Lemmas.ListCap", "RotoV.Lemmas.ListRaw", "RotoV.Lemmas.ListInv", "RotoV.Lemmas.ListRefine", "RotoV.Lemmas.ListNested",
+           "RotoV.Lemmas.ListJoin",
            "RotoV.Model.ListM", "RotoV.Model.ListBase"]
 
 
@@ -18,15 +19,18 @@ def search(ctx):
 
 
 def run(ctx):
-    ctx.extract(["capacity", "listlocks", "listguards"])
+    ctx.extract(["capacity", "listlocks", "listguards", "listjoin"])
     ctx.prove(PROPS, extra_modules=MODULES)
     if ctx.build_harness("c15"):
         ctx.harness("c15", ["run", ctx.seed, ctx.tier], timeout=3000)
     ctx.trusted += [
         "std::sync::Mutex is not re-entrant (lock() on a mutex the thread holds never returns), Arc's strong count, "
         "the global allocator and ptr::copy/swap_nonoverlapping behave as documented (modelled, not verified)",
-        "element values are compared by an injective encoding into naturals (u8/u64 themselves, \"s<n>\" strings, the "
-        "id of a tracked value); element clone/drop of the tracked types only count",
+        "element values are compared by an injective encoding into naturals (u8/u64 themselves, the id of a tracked value; "
+        "for String the table elemStr — \"\", \"s\", \"s1\", \"s1 \", \"S1\", \",\", multi-byte, else \"s<n>\" — proved injective in Lean "
+        "(string_elements_distinct) and compared with the harness's table on every run); element clone/drop of the tracked types only count; "
+        "a Rust string is its UTF-8 bytes and [S]::join is std's join_generic_copy as written in ListBase.sliceJoin (first element, then "
+        "separator + element), proved equal to intersperse-and-flatten",
         "single-threaded histories only (interleavings are C16's); list lengths stay below 2^63 elements",
     ]
     return ctx.finish(
@@ -34,10 +38,15 @@ def run(ctx):
         rule="histories on the real List<T> API and on compiled scripts over 3 handle variables: fixed boundary histories "
              "(growth across every power of two, self-concatenation, aliasing, == of same/aliased/distinct handles), every "
              "expressible sequence of <= 3 operations over 3 handles and of 4 over 2 handles from a 78/38-letter alphabet "
-             "(thorough: 4 over 3 handles), and random histories of <= 200 operations; element types u8, u64, String, "
-             "zero-sized tracked, 24-byte tracked, nested List; after every operation the result, every handle's "
-             "len/capacity/contents and the live tracked elements are compared with shared Vecs and with the Lean model; "
-             "a class is distinct by (element type, operation, issuer, result shape, length bucket, handles bound, capacity changed)",
+             "(String: 81/40 letters with join and the empty string; thorough: 4 over 3 handles), and random histories of <= 200 "
+             "operations; element types u8, u64, String (values include the empty string, a prefix of another element, case "
+             "variants, multi-byte), zero-sized tracked, 24-byte tracked, nested List; join of 17 fixed lists (empty strings "
+             "leading / trailing / only / interleaved, nil, singleton, elements equal to the separator) x 2 builders x 6 "
+             "separators (one byte, empty, two bytes, multi-byte, equal to an element) first; indices that are in range only "
+             "after a truncating cast; after every operation the result, every handle's "
+             "len/capacity/contents and the live tracked elements are compared with shared Vecs (join: Vec<String>::join) and "
+             "with the Lean model; a class is distinct by (element type, operation, issuer, result shape, length bucket, handles "
+             "bound, capacity changed; join: separator, where the empty strings are)",
         search=search,
     )
 
